@@ -13,7 +13,7 @@ import (
 
 func init() {
 	register(&Property{ID: "C04", Run: runC04, Meta: report.Meta{ID: "C04",
-		Explanation: "DECIDED (for all grammars and inputs at once, by a path-sensitive nilness analysis of the API boundary and sibling agreement at the leaves): R04a on every path through parsley.Parse a return with a nil error returns a node known to be non-nil on that path (nodes coming out of a user Transform are covered by A-user), and a return with an error returns the nil node; R04b Evaluate calls EvaluateNode only behind parseErr == nil; R04c every leaf parser (the terminals, End, Empty) returns on every path exactly one of a non-nil node or a non-nil error; R04d End yields its node only behind Reader.IsEOF(pos) of its own position, and Sentence builds SeqOf(p, End()) selecting child 0; R04e no alternation/filter combinator of packages combinator and parser returns a node together with a stale error on any path (pure forwarders and Optional, tabled, excepted) — the wrappers above (Name/ReturnError, Single, RightTrim) treat a non-nil error as failure and would drop a full parse. NOT DECIDED: 'with a Sentence root it succeeds precisely when some parse consumes the entire input' (completeness, see C01).",
+		Explanation: "DECIDED (for all grammars and inputs at once, by a path-sensitive nilness analysis of the API boundary and sibling agreement at the leaves): R04a on every path through parsley.Parse a return with a nil error returns a node known to be non-nil on that path (nodes coming out of a user Transform are covered by A-user), and a return with an error returns the nil node; R04b Evaluate calls EvaluateNode only behind parseErr == nil; R04c every leaf parser (the terminals, End, Empty) returns on every path exactly one of a non-nil node or a non-nil error; R04d End yields its node only behind Reader.IsEOF(pos) of its own position, and Sentence builds SeqOf(p, End()) selecting child 0; R04e no alternation/filter combinator of packages combinator and parser returns a node together with a stale error on any path (pure forwarders and Optional, tabled, excepted) — the wrappers above (Name/ReturnError, Single, RightTrim) treat a non-nil error as failure and would drop a full parse. R04f Optional keeps the empty match next to the wrapped parser's alternatives on every path (otherwise Sentence(a? a) rejects \"a\" although a full parse exists). NOT DECIDED: 'with a Sentence root it succeeds precisely when some parse consumes the entire input' (completeness, see C01).",
 		Assumptions: commonAssumptions, TrustedBase: commonTrusted}})
 }
 
